@@ -415,4 +415,59 @@ example : let cl : Clusters := { initial := [0], derivedClusters := [⟨.shared,
     1 ≤ cl.initial.length ∧ ∀ dc ∈ cl.derivedClusters, dc.stitch = [] ∨ dc.owner = .left := by
   simp
 
+/-- the plan of `NoClustering` meets the hypotheses of `C08_patched_table_rows`, for any number of columns -/
+theorem noClusteringPlan_patched (n : Nat) :
+    1 ≤ (noClusteringPlan n).initial.length ∧ ∀ dc ∈ (noClusteringPlan n).derivedClusters, dc.stitch = [] ∨ dc.owner = .left := by
+  refine ⟨by simp [noClusteringPlan], fun dc hdc => ?_⟩
+  simp only [noClusteringPlan, List.mem_map] at hdc
+  obtain ⟨i, _, rfl⟩ := hdc
+  exact Or.inl rfl
+
+/-- **C08 from the typed input table, per-column patching.**  `Synthesizer(df, NoClustering()).sample()` in the model — convertors fitted
+on the typed columns, the table normalised, the forest built, the first column's tree harvested and turned into microdata, every other
+column's microtable patched on — for a table of `N ≥ 1` rows with one non-null entity id per row: the synthetic table is empty only if
+`N < low_threshold + (low_mean_gap + 8.5)·layer_sd`, and otherwise has between `N − 1 − (17·layer_noise_sd + ½)` and
+`N + 17·layer_noise_sd + ½` rows — whatever the column types, values, nulls, salt and every RNG stream. More generally for any plan whose
+derived clusters are patched in or stitched with the left side as owner. -/
+theorem C08_synthesize_patched_rows (E : Env α) (cols : List (RawCol α)) (nrows : Nat) (names : List String)
+    (pids : Array (List UInt64)) (ap : AnonParams α) (bp : BucketParams)
+    (hn : 0 < nrows) (hids : OneIdPerRow pids nrows)
+    (hlt : 2 ≤ ap.supp.lt) (hsd : 0 ≤ ap.supp.sd) (hgap : 0 ≤ ap.supp.gap) (hnsd : 0 ≤ ap.noiseSd) (hz : ∀ s, |E.z s| ≤ 17 / 2)
+    (isIntegral : List Bool) (entropy : List α) (threshRel : α) (cl : Clusters)
+    (hini : 1 ≤ cl.initial.length) (hown : ∀ dc ∈ cl.derivedClusters, dc.stitch = [] ∨ dc.owner = .left)
+    (streams : List (List Nat × List (Draw α))) (s s' : List (Draw α)) (res : MTable (Cell α) α)
+    (h : (synthesizePlan E cols nrows names pids ap bp .unique isIntegral entropy threshRel cl streams).run s = .ok (res, s')) :
+    (res.1 = [] → ((nrows : Int) : α) < (ap.supp.lt : α) + (ap.supp.gap + 17 / 2) * ap.supp.sd) ∧
+    (res.1 ≠ [] → ((nrows : Int) : α) - 1 - (17 * ap.noiseSd + 1 / 2) ≤ ((res.1.length : Int) : α) ∧
+      ((res.1.length : Int) : α) ≤ ((nrows : Int) : α) + (17 * ap.noiseSd + 1 / 2)) := by
+  unfold synthesizePlan at h
+  split at h
+  · simp [throw, throwThe, MonadExceptOf.throw, StateT.lift, StateT.run] at h
+  · rename_i convs F hF
+    unfold forestOfTable at hF
+    split at hF
+    · rename_i F' hinit
+      simp only [Except.ok.injEq, Prod.mk.injEq] at hF
+      obtain ⟨rfl, rfl⟩ := hF
+      have hsz := fitTable_size E cols nrows
+      have := C08_patched_table_rows E { names, raw := (fitTable E cols nrows).2, pids, ap, bp, kind := .unique } F' hinit
+        (by simp only [hsz]; exact hn) rfl (by simp only [hsz]; exact hids) hlt hsd hgap hnsd hz _ isIntegral entropy threshRel cl hini hown
+        streams s s' res h
+      simpa only [hsz] using this
+    · cases hF
+
+/-- `Synthesizer(df, NoClustering()).sample()`: the instance of the above for the plan `NoClustering` builds. -/
+theorem C08_synthesize_noClustering_rows (E : Env α) (cols : List (RawCol α)) (nrows : Nat) (names : List String)
+    (pids : Array (List UInt64)) (ap : AnonParams α) (bp : BucketParams)
+    (hn : 0 < nrows) (hids : OneIdPerRow pids nrows)
+    (hlt : 2 ≤ ap.supp.lt) (hsd : 0 ≤ ap.supp.sd) (hgap : 0 ≤ ap.supp.gap) (hnsd : 0 ≤ ap.noiseSd) (hz : ∀ s, |E.z s| ≤ 17 / 2)
+    (isIntegral : List Bool) (entropy : List α) (threshRel : α)
+    (streams : List (List Nat × List (Draw α))) (s s' : List (Draw α)) (res : MTable (Cell α) α)
+    (h : (synthesizePlan E cols nrows names pids ap bp .unique isIntegral entropy threshRel (noClusteringPlan cols.length) streams).run s = .ok (res, s')) :
+    (res.1 = [] → ((nrows : Int) : α) < (ap.supp.lt : α) + (ap.supp.gap + 17 / 2) * ap.supp.sd) ∧
+    (res.1 ≠ [] → ((nrows : Int) : α) - 1 - (17 * ap.noiseSd + 1 / 2) ≤ ((res.1.length : Int) : α) ∧
+      ((res.1.length : Int) : α) ≤ ((nrows : Int) : α) + (17 * ap.noiseSd + 1 / 2)) :=
+  C08_synthesize_patched_rows E cols nrows names pids ap bp hn hids hlt hsd hgap hnsd hz isIntegral entropy threshRel _
+    (noClusteringPlan_patched cols.length).1 (noClusteringPlan_patched cols.length).2 streams s s' res h
+
 end
